@@ -144,7 +144,9 @@ func (c *Check) respondRules(prefix string) {
 			if last != nil {
 				foreign := ""
 				last.Fact.T.Walk(func(t *Term) bool {
-					if strings.HasPrefix(t.Op, ".RequestContext.") || strings.HasPrefix(t.Op, ".ServiceBinding.") {
+					// (the life-cycle state and the availability are what a consumer or an owner can change while a request is
+					// pending; a sanity test of the batch bookkeeping, which only the module writes, is not of that kind)
+					if t.Op == ".RequestContext.State" || t.Op == ".ServiceBinding.Available" || t.Op == ".ServiceBinding.DisabledTime" {
 						foreign = t.Op
 					}
 					return true
@@ -350,7 +352,7 @@ func (c *Check) respondRules(prefix string) {
 		{"marker-deleted", "each accepted response deletes both active markers exactly once"},
 		{"admission", "acceptance is dominated by found ∧ provider match ∧ active marker for the same id"},
 		{"admission-order", "every rejecting check precedes all effects"},
-		{"rejects-on-request-alone", "no rejecting exit of the respond function tests a field of the request context or of the binding"},
+		{"rejects-on-request-alone", "no rejecting exit of the respond function tests the state of the request context or the availability of the binding"},
 		{"reject-after-effect", "no rejecting return follows a direct state change"},
 		{"marker-key", "the by-binding marker key is built from the request being settled"},
 		{"refund-args", "refund recipient/amount are R.Consumer / R.ServiceFee of the settled request"},
@@ -713,8 +715,11 @@ func (c *Check) withdrawRules(prefix string) {
 			}
 			eq := Fact{T: mk("sdk.Coins.IsEqual", parseTerm(E), parseTerm(T))}
 			eq2 := Fact{T: mk("sdk.Coins.IsEqual", parseTerm(T), parseTerm(E))}
-			isEq := af.Has(eq) || af.Has(eq2)
-			isNe := af.Has(eq.Not()) || af.Has(eq2.Not())
+			// "nothing is left of the total" is the same test: total − earned is zero / empty
+			z1 := Fact{T: mk("sdk.Coins.IsZero", mk("sdk.Coins.Sub", parseTerm(T), parseTerm(E)))}
+			z2 := Fact{T: mk("sdk.Coins.Empty", mk("sdk.Coins.Sub", parseTerm(T), parseTerm(E)))}
+			isEq := af.Has(eq) || af.Has(eq2) || af.Has(z1) || af.Has(z2)
+			isNe := af.Has(eq.Not()) || af.Has(eq2.Not()) || af.Has(z1.Not()) || af.Has(z2.Not())
 			switch {
 			case isEq:
 				if len(del19) != 1 || del19[0].String() != ownerP {
@@ -767,7 +772,7 @@ func (c *Check) withdrawRules(prefix string) {
 							deleted = true
 						}
 					}
-				case ev.Kind == EvFact && ev.Fact.Neg:
+				case ev.Kind == EvFact:
 					ev.Fact.T.Walk(func(t *Term) bool {
 						if g := c.P.FuncNamed(t.Op); g != nil && g.Body != nil && g.isHandWritten() {
 							for _, e := range c.P.SummaryOf(g).Effs {
